@@ -47,7 +47,7 @@ func init() {
 			"interleaved property elements) encoded by the harness; each parsed set is compared with the model and queried with 6–9 certificates " +
 			"(listed, same issuer other serial, other issuer same serial, blocked key/subject, blocked subject other key, unrelated); " +
 			"non-trivial = the set parsed and the query was decided; distinct = hash of (format, encoded set, query)",
-		MinNontrivial:         4500,
+		MinNontrivial:         25000,
 		MinNontrivialThorough: 250000,
 		Shards:                16,
 		Assumptions: []string{
@@ -148,7 +148,7 @@ func ub(b []byte) *big.Int { return new(big.Int).SetBytes(b) }
 
 func runC15(c *core.Ctx) {
 	e := newC15env(c)
-	n := c.PerShard(c.Pick(720, 36000))
+	n := c.PerShard(c.Pick(2400, 36000))
 	for i := 0; i < n; i++ {
 		id := fmt.Sprintf("C15/s%d/%d/%d", c.Seed, c.Shard, i)
 		runCRLSet(e, id+"/crlset")
@@ -234,6 +234,14 @@ func runCRLSet(e *c15env, caseID string) {
 		if i > 0 && r.IntN(4) == 0 { // near-twin of the previous hash: differs in the last byte only
 			is.hash = m.issuers[i-1].hash
 			is.hash[31] ^= byte(1 + r.IntN(255))
+		}
+		dup := false
+		for _, o := range m.issuers { // the model has distinct issuer hashes (a twin of a twin can fall back on its grandparent)
+			dup = dup || o.hash == is.hash
+		}
+		if dup {
+			is.hash[0] ^= 0x55
+			is.hash[1] = byte(i)
 		}
 		ns := r.IntN(41)
 		if r.IntN(3) == 0 {
